@@ -38,7 +38,7 @@ const LONG_B: &str = "sample_aaaaaaaaaaaaaaaaaaaaaaaaaaaaaaaaaaaaaaaaaaaaaaaaaaa
 const LONG_C: &str = "bbbbbbbbbbbbbbbbbbbbbbbbbbbbbbbbbbbbbbbbbbbbbbbbbbbbbbbbbbbbbbbbbbbbbbbbbbbbbbbbbbbbbbbbbbbbbbbbbbbbbbbbbbbbbbbbbbbbbbbbbbbbbbbbbbbbbbbbbbbbbbbbbbbbbbbbbbbbbbbbbbbbbbbbbbbbbbbbbbbbbbbbbbbbbbbbbbbbbbbbbbbbbbbbbbbbbbbbbbbbbbbbbbbbbbbbbbbbbbbbbbbbbbbbbbbbbbbbbbbbbbbbbbbbbbbbbbb";
 const PLAIN: Naming = Naming { id: "plain", names: ["s0", "s1", "s2", "s3", "s4"], labels: LABELS };
 
-const NAMINGS: [Naming; 9] = [
+const NAMINGS: [Naming; 11] = [
     PLAIN,
     // names whose lexicographic, numeric and list orders all differ
     Naming { id: "numeric-names", names: ["s10", "s9", "s100", "s1", "s2"], labels: ["", "north", "South", "east"] },
@@ -56,6 +56,10 @@ const NAMINGS: [Naming; 9] = [
     Naming { id: "long-names", names: [LONG_A, LONG_B, "s2", LONG_C, "s4"], labels: ["", LONG_B, LONG_C, "x"] },
     // non-ASCII names and labels
     Naming { id: "unicode", names: ["sämple", "样本", "sé", "s_3", "s-4"], labels: ["", "Nord", "Süd", "东"] },
+    // labels that differ only in a blank in front or behind
+    Naming { id: "labels-with-outer-blanks", names: ["s0", "s1", "s2", "s3", "s4"], labels: ["", "A ", " A", "A"] },
+    // labels that look like the tool's own placeholder for samples without a label
+    Naming { id: "placeholder-like-labels", names: ["s0", "s1", "s2", "s3", "s4"], labels: ["", "[unnamed]", "unnamed", "[0]"] },
 ];
 
 fn naming_by_id(id: &str) -> Naming {
@@ -631,6 +635,11 @@ fn eval_cli_errors(scratch: &Scratch) -> (u64, Vec<Viol>) {
             ));
         }
     };
+    // empty entries are not sample names: the same list in a samples file names the unknown sample ""
+    for empty_entry in ["s0,,s1", "s0,s1,", ",s0", "s0=A,,s1=B", "=A,s0=B", ","] {
+        n += 1;
+        must_fail(&["create", "--samples", empty_entry], "empty-entry", &mut v);
+    }
     for absent in ["s9", "s0,s9", "s9=A,s1=B", "s1=A,S0=A", "s0,s1,s2,s3"] {
         n += 1;
         must_fail(&["create", "--samples", absent], "absent-sample", &mut v);
@@ -918,6 +927,11 @@ pub fn run(tier: Tier) -> i32 {
             exhaustive: true,
             extra: vec![],
         });
+    }
+    {
+        let vcf = vcf_for(&[0, 1, 2]);
+        let sp: Vec<(Vec<String>, Vec<u8>)> = lists3.iter().filter(|l| l.len() >= 2).map(|l| (vec!["create".to_string(), "--samples".to_string(), list_str(l)], vcf.clone())).collect();
+        super::spelling_part(&mut rep, "C09", "create --samples <list> for every list of two and three entries", &sp, &scratch);
     }
     // spellings of names and labels
     let mut nj: Vec<(usize, usize)> = Vec::new();
